@@ -274,6 +274,9 @@ def rule_tables(R):
     f = R.f
     outq.clause_removal_index(R, "tables/retained-removes-the-acknowledged-entry", outq.role_fn(f, "retained_removal"), "retained")
     outq.clause_removal_index(R, "tables/release-removes-the-acknowledged-entry", outq.role_fn(f, "release_removal"), "pending_release")
+    # ... and an identifier leaves the retained list on a successful PUBREC only to enter the release list (C03's clause)
+    from .c03 import clause_pubrec_success_continues
+    clause_pubrec_success_continues(R, "tables/pubrec-success-enters-release-list")
 
 
 def rule_shared_qos_wiring(R):
